@@ -239,7 +239,9 @@ func (w *world) label() string {
 	if w.stopped {
 		st = " stopped"
 	}
-	return fmt.Sprintf("m=%d %s unsent=%d oversize=%d sleeps=%v%s", w.m, strings.Join(parts, " "), unsent, big, w.clk.slept, st)
+	slept := append([]string(nil), w.clk.slept...) // order of concurrent Sleep calls is the scheduler's: sort
+	sort.Strings(slept)
+	return fmt.Sprintf("m=%d %s unsent=%d oversize=%d sleeps=%v%s", w.m, strings.Join(parts, " "), unsent, big, slept, st)
 }
 
 var _ = time.Second
